@@ -1674,6 +1674,11 @@ pub fn surface_pairs(ctx: &mut CheckCtx, prop: &str, pairs: &mut Vec<crate::tyen
 				ctx.extra.insert("api_surface_keyless_data".into(), json!({"functions_seen": seen, "pairs_generated": kp.len(), "names": kp.iter().map(|p| p.name.clone()).collect::<Vec<_>>()}));
 				pairs.extend(kp);
 			}
+			if prop == "C14" {
+				let (lp, seen) = crate::surface::families_surface_key_lending(prop, &doc);
+				ctx.extra.insert("api_surface_key_lending".into(), json!({"functions_seen": seen, "pairs_generated": lp.len(), "names": lp.iter().map(|p| p.name.clone()).collect::<Vec<_>>()}));
+				pairs.extend(lp);
+			}
 			if matches!(prop, "C14" | "C02" | "C01" | "C08") {
 				let (shape_pairs, seen) = crate::surface::families_surface_shapes(prop, &doc);
 				ctx.extra.insert("api_surface_shapes".into(), json!({"functions_seen": seen, "pairs_generated": shape_pairs.len(), "names": shape_pairs.iter().map(|p| p.name.clone()).collect::<Vec<_>>()}));
